@@ -1,6 +1,7 @@
 import Tumfl.Props.C13Text
 import Tumfl.Props.C13
 import Tumfl.Props.C08
+import Tumfl.Props.C13Source
 #print axioms Tumfl.Props.C13_text
 #print axioms Tumfl.Props.C13_text_off
 #print axioms Tumfl.Props.C13_parsed
@@ -9,3 +10,9 @@ import Tumfl.Props.C08
 #print axioms Tumfl.Props.C13_placement
 #print axioms Tumfl.Props.C08_comment_wf
 #print axioms Tumfl.Props.C08_comment_text
+#print axioms Tumfl.Props.C13_source
+#print axioms Tumfl.Props.C13_source_cur
+#print axioms Tumfl.Props.C13_source_list
+#print axioms Tumfl.Props.C13_source_text
+#print axioms Tumfl.Props.C13_source_examples
+#print axioms Tumfl.Props.C13_local_function_order
